@@ -1957,6 +1957,26 @@ def inline_predicates(fn: ast.FunctionDef, lookup, depth: int = 2) -> ast.Functi
     return ast.fix_missing_locations(out)
 
 
+def views_on_inputs(fn: ast.FunctionDef, extra_names=()) -> List[ast.Call]:
+    """`.view(...)` calls whose receiver is a parameter of `fn` (or one of `extra_names`, e.g. saved tensors), possibly through
+    .t()/.transpose()/.permute(): such a tensor comes from the caller with any stride, and view() requires a compatible one."""
+    names = set(positional_params(fn)) | set(extra_names)
+    out = []
+    for nd in ast.walk(fn):
+        if isinstance(nd, ast.Call) and isinstance(nd.func, ast.Attribute) and nd.func.attr == "view":
+            r = nd.func.value
+            while isinstance(r, ast.Call) and isinstance(r.func, ast.Attribute) and r.func.attr in ("t", "transpose", "permute", "detach"):
+                r = r.func.value
+            while isinstance(r, ast.Attribute) and r.attr in ("T", "_data", "data"):
+                r = r.value
+            if isinstance(r, ast.Name) and r.id in names:
+                # view(dtype) re-interprets the element type, not the geometry
+                if len(nd.args) == 1 and isinstance(nd.args[0], ast.Attribute) and ast.unparse(nd.args[0]).startswith("torch."):
+                    continue
+                out.append(nd)
+    return out
+
+
 def path_calls(fn: ast.FunctionDef, name: str) -> List[ast.Call]:
     """Calls to the package function `name` met on any path of `fn`, with private helpers inlined and locals substituted
     (so a call moved into a helper, or spelled with other argument conventions, is still found once per distinct spelling)."""
